@@ -253,6 +253,12 @@ func (a *AsyncAdapter) Close() error {
 	_ = a.ioc.UnsetReadWrite(&a.slot)
 	a.ioc.Deregister(&a.slot)
 
+	if closer, ok := a.rw.(io.Closer); ok {
+		// The descriptor belongs to the adapted object (e.g. a net.Conn). Closing the raw number behind
+		// its back makes the owner close it a second time later, when it may denote something else.
+		return closer.Close()
+	}
+
 	return syscall.Close(a.slot.Fd)
 }
 
